@@ -468,5 +468,20 @@ def interpolate (rho : α) (sym : Bool) (frm to : Pose α) (t : α) : Option (Po
     | .path P => some (interpPath rho frm P t)
     | _ => none
 
+/-- the caching overload `interpolate(from, to, t, firstTime, path, state)` called repeatedly with the same `firstTime` /
+`path` variables: while `firstTime` is still true an endpoint `t` returns the endpoint *without* touching the cache; the
+first interior `t` computes and stores the path and clears `firstTime`; every later call (endpoint or not) goes through
+`interpolate(from, path, t, state, rho)`.  Returns the states in call order; stops at a default path (`none`). -/
+def interpCached (rho : α) (sym : Bool) (frm to : Pose α) : Option (Path α) → List α → List (Option (Pose α))
+  | _, [] => []
+  | some P, t :: ts => some (interpPath rho frm P t) :: interpCached rho sym frm to (some P) ts
+  | none, t :: ts =>
+    if 1 ≤ t then some to :: interpCached rho sym frm to none ts
+    else if t ≤ 0 then some frm :: interpCached rho sym frm to none ts
+    else
+      match choosePath rho sym frm to with
+      | .path P => some (interpPath rho frm P t) :: interpCached rho sym frm to (some P) ts
+      | _ => [none]
+
 end
 end OmplModel.Dubins
